@@ -1236,6 +1236,92 @@ def _unroll_in_function(fn: ast.FunctionDef, counter: List[int]) -> int:
   return n
 
 
+def _unroll_literal_comprehensions(fn: ast.FunctionDef, counter: List[int]) -> int:
+  """`S(.. [elt for T in (e1, e2, e3) if cond] ..)` with a short literal iterable (directly or through a local bound
+  once to such a literal): `tmp = []; if cond[e1]: tmp.append(elt[e1]); ...; S(.. tmp ..)`."""
+  n = 0
+  local_lits: Dict[str, ast.AST] = {}
+  stores: Dict[str, int] = {}
+  for x in ast.walk(fn):
+    if isinstance(x, ast.Name) and isinstance(x.ctx, (ast.Store, ast.Del)):
+      stores[x.id] = stores.get(x.id, 0) + 1
+  for st in fn.body:
+    if isinstance(st, ast.Assign) and len(st.targets) == 1 and isinstance(st.targets[0], ast.Name) \
+        and isinstance(st.value, (ast.Tuple, ast.List)) and stores.get(st.targets[0].id) == 1:
+      local_lits[st.targets[0].id] = st.value
+
+  def literal(e: ast.AST) -> Optional[List[ast.AST]]:
+    if isinstance(e, ast.Name) and e.id in local_lits:
+      e = local_lits[e.id]
+      if isinstance(e, ast.List):
+        return None  # a list may have been mutated since
+    if isinstance(e, (ast.Tuple, ast.List)) and 0 < len(e.elts) <= _UNROLL_MAX_ELEMS and all(_simple_elem(x) for x in e.elts):
+      return list(e.elts)
+    return None
+
+  def do_block(stmts: List[ast.stmt]) -> List[ast.stmt]:
+    nonlocal n
+    out: List[ast.stmt] = []
+    for st in stmts:
+      for fld in ('body', 'orelse', 'finalbody'):
+        b = getattr(st, fld, None)
+        if isinstance(b, list) and not isinstance(st, (ast.FunctionDef, ast.AsyncFunctionDef, ast.ClassDef)):
+          setattr(st, fld, do_block(b))
+      if isinstance(st, ast.Try):
+        for h in st.handlers:
+          h.body = do_block(h.body)
+      if not isinstance(st, (ast.Return, ast.Assign, ast.Expr, ast.AnnAssign)) or getattr(st, 'value', None) is None:
+        out.append(st)
+        continue
+      comps = [x for x in ast.walk(st.value) if isinstance(x, ast.ListComp)]
+      binders = [x for x in ast.walk(st.value) if isinstance(x, (ast.Lambda, ast.GeneratorExp, ast.SetComp, ast.DictComp))]
+      if len(comps) != 1 or binders:
+        out.append(st)
+        continue
+      c = comps[0]
+      if len(c.generators) != 1 or c.generators[0].is_async:
+        out.append(st)
+        continue
+      gen = c.generators[0]
+      elems = literal(gen.iter)
+      tg = gen.target
+      if elems is None or not (isinstance(tg, ast.Name) or (isinstance(tg, ast.Tuple) and all(isinstance(e, ast.Name) for e in tg.elts))):
+        out.append(st)
+        continue
+      if isinstance(tg, ast.Tuple) and not all(isinstance(e, ast.Tuple) and len(e.elts) == len(tg.elts) for e in elems):
+        out.append(st)
+        continue
+      counter[0] += 1
+      tmp = f'unrolled__c{counter[0]}'
+      pre: List[ast.stmt] = [ast.Assign(targets=[ast.Name(id=tmp, ctx=ast.Store())], value=ast.List(elts=[], ctx=ast.Load()), lineno=st.lineno)]
+      for e in elems:
+        m: Dict[str, ast.AST] = {}
+        if isinstance(tg, ast.Name):
+          m[tg.id] = e
+        else:
+          for tn, ee in zip(tg.elts, e.elts):
+            m[tn.id] = ee
+        app = ast.Expr(value=ast.Call(func=ast.Attribute(value=ast.Name(id=tmp, ctx=ast.Load()), attr='append', ctx=ast.Load()),
+                                      args=[_Rename(m).visit(copy.deepcopy(c.elt))], keywords=[]))
+        if gen.ifs:
+          tests = [_Rename(m).visit(copy.deepcopy(t)) for t in gen.ifs]
+          test = tests[0] if len(tests) == 1 else ast.BoolOp(op=ast.And(), values=tests)
+          pre.append(ast.If(test=test, body=[app], orelse=[]))
+        else:
+          pre.append(app)
+      new_st = _ReplaceNode(c, ast.Name(id=tmp, ctx=ast.Load())).visit(st)
+      for x in pre + [new_st]:
+        ast.copy_location(x, st)
+        ast.fix_missing_locations(x)
+      out.extend(pre)
+      out.append(new_st)
+      n += 1
+    return out
+
+  fn.body = do_block(fn.body)
+  return n
+
+
 def _unroll_literal_loops(tree: ast.Module) -> int:
   """`for x in (a, b, c): BODY` with a short literal iterable (or a local list built by straight-line appends)
   and a break/continue-free body whose temporaries are written before read becomes BODY[a]; BODY[b]; BODY[c].
@@ -1250,6 +1336,7 @@ def _unroll_literal_loops(tree: ast.Module) -> int:
         n += k
         if not k:
           break
+      n += _unroll_literal_comprehensions(x, counter)
   return n
 
 
